@@ -217,3 +217,24 @@ package rdb
 //@ ensures[exact] err == nil && hit && !seqeq(ek, key) ==> len(result0) == 0
 // a miss is not cached: the closest-key search takes every cache entry under its probe key for an existing key
 //@ before Context.update#0 assert[found] len(data) != 0
+
+// ---- C07: the builder's buckets (one SST file each, ingested together) ---------------------------------------
+// The buckets are consecutive, non-empty, cover the whole sorted dataset, and no key is cut in two: the item
+// right after a bucket's end never has the key of the item right before it. (Two files holding the same key
+// overlap; at ingest the later file shadows the values of the earlier one.)
+//@ spec cut(b *Builder, e int) bool = e >= 1 && e < len(b.values) ==> !seqeq(b.values[e].key, b.values[e-1].key)
+//@ func Builder.createBuckets
+//@ flag skip frame
+//@ requires b != nil && minBucketSize >= 1 && maxBucketNum >= 1
+//@ ensures[vals] b.values == old(b.values)
+//@ ensures[cover] len(b.buckets) >= 1 && b.buckets[0].startOffset == 0 && b.buckets[len(b.buckets)-1].endOffset == len(b.values)
+//@ ensures[chain] forall(k, 1, len(b.buckets), b.buckets[k].startOffset == b.buckets[k-1].endOffset)
+//@ ensures[nonempty] len(b.values) > 0 ==> forall(k, 0, len(b.buckets), b.buckets[k].startOffset < b.buckets[k].endOffset)
+//@ ensures[nosplit] forall(k, 0, len(b.buckets), 0 <= b.buckets[k].endOffset && b.buckets[k].endOffset <= len(b.values) && cut(b, b.buckets[k].endOffset))
+//@ loop 0 invariant[idx] 0 <= i && i < maxBucketNum && len(b.buckets) == i && b.values == old(b.values) && bucketSize >= 1
+//@ loop 0 invariant[start] 0 <= bucketStart && bucketStart <= len(b.values) && (i > 0 ==> bucketStart < len(b.values)) && (i == 0 ==> bucketStart == 0)
+//@ loop 0 invariant[last] i > 0 ==> b.buckets[0].startOffset == 0 && b.buckets[i-1].endOffset == bucketStart
+//@ loop 0 invariant[chain] forall(k, 1, i, b.buckets[k].startOffset == b.buckets[k-1].endOffset)
+//@ loop 0 invariant[nonempty] forall(k, 0, i, b.buckets[k].startOffset < b.buckets[k].endOffset)
+//@ loop 0 invariant[nosplit] forall(k, 0, i, 0 <= b.buckets[k].endOffset && b.buckets[k].endOffset <= len(b.values) && cut(b, b.buckets[k].endOffset))
+//@ loop 1 invariant[end] bucketStart <= bucketEnd && bucketEnd <= len(b.values) && (bucketStart < len(b.values) ==> bucketStart < bucketEnd)
